@@ -15,271 +15,25 @@
 //! `read_event` call.
 //!
 //! One JSON line per case.
-use bitcoin::constants::ChainHash;
+#[path = "../c15_common.rs"]
+mod c15_common;
 use bitcoin::hashes::sha256::Hash as Sha256;
 use bitcoin::hashes::{Hash, HashEngine};
 use bitcoin::secp256k1::ecdh::SharedSecret;
 use bitcoin::secp256k1::{PublicKey, Secp256k1, SecretKey};
-use bitcoin::{Network, ScriptBuf};
-use lightning::io;
-use lightning::ln::msgs::{self, BaseMessageHandler, ChannelMessageHandler, DecodeError, Init, LightningError, MessageSendEvent, OnionMessageHandler, RoutingMessageHandler};
-use lightning::routing::gossip::NodeId;
-use lightning::ln::peer_handler::{CustomMessageHandler, IgnoringMessageHandler, MessageHandler, PeerManager, SocketDescriptor};
+use bitcoin::ScriptBuf;
+use c15_common::*;
+use lightning::ln::msgs::{self, MessageSendEvent};
+use lightning::ln::peer_handler::{IgnoringMessageHandler, MessageHandler, PeerManager, SocketDescriptor};
 use lightning::ln::types::ChannelId;
 use lightning::ln::verif_hooks::{MessageBuf, PeerChannelEncryptor};
-use lightning::ln::wire::{self, CustomMessageReader};
-use lightning::types::features::{InitFeatures, NodeFeatures};
-use lightning::util::logger::{Logger, Record};
-use lightning::util::ser::{LengthLimitedRead, Writeable, Writer};
+use lightning::util::ser::Writeable;
 use lightning::util::test_utils::TestNodeSigner;
 use std::collections::VecDeque;
 use std::hash::{Hash as StdHash, Hasher};
 use std::panic::{self, AssertUnwindSafe};
 use std::sync::{Arc, Mutex};
 use verif_harness::*;
-
-// ---------------------------------------------------------------- plumbing
-struct NullLogger;
-impl Logger for NullLogger {
-	fn log(&self, _record: Record) {}
-}
-
-/// what the handlers of one node saw, in order: "C" = peer_connected on the custom handler ("c" on
-/// the others), "X" = peer_disconnected, "M<hex>" = a message (type bytes + payload) reached a
-/// channel/custom handler, "H:<method>" = a routing/onion handler method was called
-type Log = Arc<Mutex<Vec<String>>>;
-
-#[derive(Debug, Clone, PartialEq)]
-struct RawMsg {
-	ty: u16,
-	payload: Vec<u8>,
-}
-impl Writeable for RawMsg {
-	fn write<W: Writer>(&self, w: &mut W) -> Result<(), io::Error> {
-		w.write_all(&self.payload)
-	}
-}
-impl wire::Type for RawMsg {
-	fn type_id(&self) -> u16 {
-		self.ty
-	}
-}
-fn encoded(ty: u16, payload: &[u8]) -> Vec<u8> {
-	let mut v = ty.to_be_bytes().to_vec();
-	v.extend_from_slice(payload);
-	v
-}
-
-/// custom types this node understands: 32768..=59999; 60000.. stay unknown to the reader
-fn custom_known(ty: u16) -> bool {
-	ty >= 32768 && ty < 60000
-}
-
-struct RecCustom {
-	log: Log,
-	pending: Mutex<Vec<(PublicKey, RawMsg)>>,
-}
-impl CustomMessageReader for RecCustom {
-	type CustomMessage = RawMsg;
-	fn read<R: LengthLimitedRead>(&self, ty: u16, buffer: &mut R) -> Result<Option<RawMsg>, DecodeError> {
-		if !custom_known(ty) {
-			return Ok(None);
-		}
-		let mut payload = Vec::new();
-		let mut buf = [0u8; 4096];
-		loop {
-			let n = buffer.read(&mut buf).map_err(|_| DecodeError::ShortRead)?;
-			if n == 0 {
-				break;
-			}
-			payload.extend_from_slice(&buf[..n]);
-		}
-		Ok(Some(RawMsg { ty, payload }))
-	}
-}
-impl CustomMessageHandler for RecCustom {
-	fn handle_custom_message(&self, msg: RawMsg, _sender: PublicKey) -> Result<(), LightningError> {
-		self.log.lock().unwrap().push(format!("M{}", hex(&encoded(msg.ty, &msg.payload))));
-		Ok(())
-	}
-	fn get_and_clear_pending_msg(&self) -> Vec<(PublicKey, RawMsg)> {
-		self.pending.lock().unwrap().drain(..).collect()
-	}
-	fn peer_disconnected(&self, _their_node_id: PublicKey) {
-		self.log.lock().unwrap().push("X".to_string());
-	}
-	fn peer_connected(&self, _their_node_id: PublicKey, _msg: &Init, _inbound: bool) -> Result<(), ()> {
-		self.log.lock().unwrap().push("C".to_string());
-		Ok(())
-	}
-	fn provided_node_features(&self) -> NodeFeatures {
-		NodeFeatures::empty()
-	}
-	fn provided_init_features(&self, _their_node_id: PublicKey) -> InitFeatures {
-		InitFeatures::empty()
-	}
-}
-
-struct RecChan {
-	log: Log,
-	pending: Mutex<Vec<MessageSendEvent>>,
-}
-macro_rules! rec_ref {
-	($name: ident, $t: ty, $ty: expr) => {
-		fn $name(&self, _their_node_id: PublicKey, msg: &$t) {
-			self.log.lock().unwrap().push(format!("M{}", hex(&encoded($ty, &msg.encode()))));
-		}
-	};
-}
-macro_rules! rec_val {
-	($name: ident, $t: ty, $ty: expr) => {
-		fn $name(&self, _their_node_id: PublicKey, msg: $t) {
-			self.log.lock().unwrap().push(format!("M{}", hex(&encoded($ty, &msg.encode()))));
-		}
-	};
-}
-impl ChannelMessageHandler for RecChan {
-	rec_ref!(handle_open_channel, msgs::OpenChannel, 32);
-	rec_ref!(handle_open_channel_v2, msgs::OpenChannelV2, 64);
-	rec_ref!(handle_accept_channel, msgs::AcceptChannel, 33);
-	rec_ref!(handle_accept_channel_v2, msgs::AcceptChannelV2, 65);
-	rec_ref!(handle_funding_created, msgs::FundingCreated, 34);
-	rec_ref!(handle_funding_signed, msgs::FundingSigned, 35);
-	rec_ref!(handle_channel_ready, msgs::ChannelReady, 36);
-	rec_val!(handle_peer_storage, msgs::PeerStorage, 7);
-	rec_val!(handle_peer_storage_retrieval, msgs::PeerStorageRetrieval, 9);
-	rec_ref!(handle_shutdown, msgs::Shutdown, 38);
-	rec_ref!(handle_closing_signed, msgs::ClosingSigned, 39);
-	rec_ref!(handle_stfu, msgs::Stfu, 2);
-	rec_ref!(handle_splice_init, msgs::SpliceInit, 80);
-	rec_ref!(handle_splice_ack, msgs::SpliceAck, 81);
-	rec_ref!(handle_splice_locked, msgs::SpliceLocked, 77);
-	rec_ref!(handle_tx_add_input, msgs::TxAddInput, 66);
-	rec_ref!(handle_tx_add_output, msgs::TxAddOutput, 67);
-	rec_ref!(handle_tx_remove_input, msgs::TxRemoveInput, 68);
-	rec_ref!(handle_tx_remove_output, msgs::TxRemoveOutput, 69);
-	rec_ref!(handle_tx_complete, msgs::TxComplete, 70);
-	rec_ref!(handle_tx_signatures, msgs::TxSignatures, 71);
-	rec_ref!(handle_tx_init_rbf, msgs::TxInitRbf, 72);
-	rec_ref!(handle_tx_ack_rbf, msgs::TxAckRbf, 73);
-	rec_ref!(handle_tx_abort, msgs::TxAbort, 74);
-	rec_ref!(handle_update_add_htlc, msgs::UpdateAddHTLC, 128);
-	rec_val!(handle_update_fulfill_htlc, msgs::UpdateFulfillHTLC, 130);
-	rec_ref!(handle_update_fail_htlc, msgs::UpdateFailHTLC, 131);
-	rec_ref!(handle_update_fail_malformed_htlc, msgs::UpdateFailMalformedHTLC, 135);
-	rec_ref!(handle_commitment_signed, msgs::CommitmentSigned, 132);
-	fn handle_commitment_signed_batch(&self, _their_node_id: PublicKey, _channel_id: ChannelId, batch: Vec<msgs::CommitmentSigned>) {
-		self.log.lock().unwrap().push(format!("Mbatch{}", batch.len()));
-	}
-	rec_ref!(handle_revoke_and_ack, msgs::RevokeAndACK, 133);
-	rec_ref!(handle_update_fee, msgs::UpdateFee, 134);
-	rec_ref!(handle_announcement_signatures, msgs::AnnouncementSignatures, 259);
-	rec_ref!(handle_channel_reestablish, msgs::ChannelReestablish, 136);
-	rec_ref!(handle_channel_update, msgs::ChannelUpdate, 258);
-	rec_ref!(handle_error, msgs::ErrorMessage, 17);
-	fn get_chain_hashes(&self) -> Option<Vec<ChainHash>> {
-		Some(vec![ChainHash::using_genesis_block(Network::Testnet)])
-	}
-	fn message_received(&self) {}
-}
-impl BaseMessageHandler for RecChan {
-	fn get_and_clear_pending_msg_events(&self) -> Vec<MessageSendEvent> {
-		self.pending.lock().unwrap().drain(..).collect()
-	}
-	fn peer_disconnected(&self, _their_node_id: PublicKey) {}
-	fn provided_node_features(&self) -> NodeFeatures {
-		NodeFeatures::empty()
-	}
-	fn provided_init_features(&self, _their_node_id: PublicKey) -> InitFeatures {
-		InitFeatures::empty()
-	}
-	fn peer_connected(&self, _their_node_id: PublicKey, _msg: &Init, _inbound: bool) -> Result<(), ()> {
-		self.log.lock().unwrap().push("c".to_string());
-		Ok(())
-	}
-}
-
-struct RecRoute {
-	log: Log,
-}
-impl RecRoute {
-	fn h(&self, name: &str) {
-		self.log.lock().unwrap().push(format!("H:{}", name));
-	}
-}
-impl RoutingMessageHandler for RecRoute {
-	fn handle_node_announcement(&self, _n: Option<PublicKey>, _msg: &msgs::NodeAnnouncement) -> Result<bool, LightningError> {
-		self.h("node_announcement");
-		Ok(false)
-	}
-	fn handle_channel_announcement(&self, _n: Option<PublicKey>, _msg: &msgs::ChannelAnnouncement) -> Result<bool, LightningError> {
-		self.h("channel_announcement");
-		Ok(false)
-	}
-	fn handle_channel_update(&self, _n: Option<PublicKey>, _msg: &msgs::ChannelUpdate) -> Result<Option<(NodeId, NodeId)>, LightningError> {
-		self.h("channel_update");
-		Ok(None)
-	}
-	fn get_next_channel_announcement(&self, _s: u64) -> Option<(msgs::ChannelAnnouncement, Option<msgs::ChannelUpdate>, Option<msgs::ChannelUpdate>)> {
-		None
-	}
-	fn get_next_node_announcement(&self, _s: Option<&NodeId>) -> Option<msgs::NodeAnnouncement> {
-		None
-	}
-	fn handle_reply_channel_range(&self, _n: PublicKey, _msg: msgs::ReplyChannelRange) -> Result<(), LightningError> {
-		self.h("reply_channel_range");
-		Ok(())
-	}
-	fn handle_reply_short_channel_ids_end(&self, _n: PublicKey, _msg: msgs::ReplyShortChannelIdsEnd) -> Result<(), LightningError> {
-		self.h("reply_short_channel_ids_end");
-		Ok(())
-	}
-	fn handle_query_channel_range(&self, _n: PublicKey, _msg: msgs::QueryChannelRange) -> Result<(), LightningError> {
-		self.h("query_channel_range");
-		Ok(())
-	}
-	fn handle_query_short_channel_ids(&self, _n: PublicKey, _msg: msgs::QueryShortChannelIds) -> Result<(), LightningError> {
-		self.h("query_short_channel_ids");
-		Ok(())
-	}
-	fn processing_queue_high(&self) -> bool {
-		false
-	}
-}
-struct RecOnion {
-	log: Log,
-}
-impl OnionMessageHandler for RecOnion {
-	fn handle_onion_message(&self, _n: PublicKey, _msg: &msgs::OnionMessage) {
-		self.log.lock().unwrap().push("H:onion_message".to_string());
-	}
-	fn next_onion_message_for_peer(&self, _n: PublicKey) -> Option<msgs::OnionMessage> {
-		None
-	}
-	fn timer_tick_occurred(&self) {}
-}
-macro_rules! base_handler {
-	($t: ty) => {
-		impl BaseMessageHandler for $t {
-			fn get_and_clear_pending_msg_events(&self) -> Vec<MessageSendEvent> {
-				Vec::new()
-			}
-			fn peer_disconnected(&self, _their_node_id: PublicKey) {}
-			fn provided_node_features(&self) -> NodeFeatures {
-				NodeFeatures::empty()
-			}
-			fn provided_init_features(&self, _their_node_id: PublicKey) -> InitFeatures {
-				InitFeatures::empty()
-			}
-			fn peer_connected(&self, _their_node_id: PublicKey, _msg: &Init, _inbound: bool) -> Result<(), ()> {
-				self.log.lock().unwrap().push("c".to_string());
-				Ok(())
-			}
-		}
-	};
-}
-base_handler!(RecRoute);
-base_handler!(RecOnion);
 
 /// scripted socket. `plan` answers `send_data`: None = take everything, Some(k) = take min(k, len).
 struct SockState {
@@ -376,13 +130,13 @@ struct Node {
 	id: PublicKey,
 	eph_seed: [u8; 32],
 }
-fn mk_node(secret: SecretKey, eph_seed: [u8; 32]) -> Node {
+fn mk_node(secret: SecretKey, eph_seed: [u8; 32], gossip: bool) -> Node {
 	let log: Log = Arc::new(Mutex::new(Vec::new()));
 	let chan = Arc::new(RecChan { log: log.clone(), pending: Mutex::new(Vec::new()) });
 	let custom = Arc::new(RecCustom { log: log.clone(), pending: Mutex::new(Vec::new()) });
 	let mh = MessageHandler {
 		chan_handler: chan.clone(),
-		route_handler: Arc::new(RecRoute { log: log.clone() }),
+		route_handler: Arc::new(RecRoute::new(log.clone(), gossip)),
 		onion_message_handler: Arc::new(RecOnion { log: log.clone() }),
 		custom_message_handler: custom.clone(),
 		send_only_message_handler: IgnoringMessageHandler {},
@@ -425,8 +179,8 @@ fn jstr(s: &str) -> String {
 // ---------------------------------------------------------------- honest: PM <-> PM
 fn honest(seed: u64, n_msgs: usize, profile: &str) -> String {
 	let mut r = Rng(seed);
-	let a = mk_node(secret_from(&mut r), { let mut s = [0u8; 32]; s[..8].copy_from_slice(&r.next().to_le_bytes()); s });
-	let b = mk_node(secret_from(&mut r), { let mut s = [1u8; 32]; s[..8].copy_from_slice(&r.next().to_le_bytes()); s });
+	let a = mk_node(secret_from(&mut r), { let mut s = [0u8; 32]; s[..8].copy_from_slice(&r.next().to_le_bytes()); s }, false);
+	let b = mk_node(secret_from(&mut r), { let mut s = [1u8; 32]; s[..8].copy_from_slice(&r.next().to_le_bytes()); s }, false);
 	let nodes = [a, b];
 	let socks = [Sock::new(1), Sock::new(2)];
 	// a connects out to b
@@ -685,6 +439,7 @@ fn raw(role_in: bool, seed: u64, toks: &[&str]) -> String {
 	eph_seed[..8].copy_from_slice(&r.next().to_le_bytes());
 	let h_static = secret_from(&mut r);
 	let h_eph = secret_from(&mut r);
+	let gossip = kv(toks, "gossip") == Some("1");
 	let frames: Vec<Vec<u8>> = match kv(toks, "frames") {
 		Some(s) if !s.is_empty() => s.split(',').map(|f| if f == "-" { vec![] } else { unhex(f) }).collect(),
 		_ => vec![],
@@ -720,10 +475,10 @@ fn raw(role_in: bool, seed: u64, toks: &[&str]) -> String {
 	let h_signer = TestNodeSigner::new(h_static);
 	let mut pieces: Vec<Vec<u8>> = vec![];
 	let pm_act: Vec<u8>;
+	let mut enc;
 	{
-		let node = mk_node(pm_secret, eph_seed);
+		let node = mk_node(pm_secret, eph_seed, false);
 		let mut sock = Sock::new(7);
-		let mut enc;
 		if role_in {
 			enc = PeerChannelEncryptor::new_outbound(node.id, h_eph);
 			let act1 = enc.get_act_one(&secp).to_vec();
@@ -815,7 +570,7 @@ fn raw(role_in: bool, seed: u64, toks: &[&str]) -> String {
 	}
 
 	// --- the observed run on a fresh PM
-	let node = mk_node(pm_secret, eph_seed);
+	let node = mk_node(pm_secret, eph_seed, gossip);
 	let mut sock = Sock::new(9);
 	let mut obs: Vec<String> = vec![];
 	let mut dead = false;
@@ -827,6 +582,7 @@ fn raw(role_in: bool, seed: u64, toks: &[&str]) -> String {
 		node.pm.new_outbound_connection(p_hs, sock.clone(), None).unwrap()
 	};
 	let mut pos = 0usize;
+	let mut all_out: Vec<u8> = vec![];
 	let mut frag_hex: Vec<String> = vec![];
 	for f in frags.iter() {
 		let end = core::cmp::min(pos + f, stream.len());
@@ -850,6 +606,7 @@ fn raw(role_in: bool, seed: u64, toks: &[&str]) -> String {
 		}));
 		let items: Vec<String> = node.log.lock().unwrap()[before..].iter().map(|s| jstr(s)).collect();
 		let out: Vec<u8> = sock.st.lock().unwrap().out.drain(..).collect();
+		all_out.extend_from_slice(&out);
 		let res_s = match res {
 			Ok(true) => "ok",
 			Ok(false) => {
@@ -864,10 +621,48 @@ fn raw(role_in: bool, seed: u64, toks: &[&str]) -> String {
 		};
 		obs.push(format!("{{\"res\":\"{}\",\"items\":[{}],\"sent\":\"{}\"}}", res_s, items.join(","), hex(&out)));
 	}
+	// everything the PeerManager put on the wire after its handshake act must be a sequence of
+	// frames our real decryptor accepts, each a message of at most 65535 bytes
+	let skip = if role_in { 50 } else { 66 };
+	let mut replies: Vec<String> = vec![];
+	let mut replies_ok = true;
+	if all_out.len() > skip {
+		let mut rest = &all_out[skip..];
+		while !rest.is_empty() {
+			if rest.len() < 18 {
+				replies_ok = false;
+				replies.push(format!("\"partial-header:{}\"", rest.len()));
+				break;
+			}
+			let len = match enc.decrypt_length_header(&rest[..18]) {
+				Ok(l) => l as usize,
+				Err(_) => {
+					replies_ok = false;
+					replies.push("\"bad-header\"".to_string());
+					break;
+				},
+			};
+			if rest.len() < 18 + len + 16 {
+				replies_ok = false;
+				replies.push(format!("\"partial-body:{}\"", len));
+				break;
+			}
+			let mut body = rest[18..18 + len + 16].to_vec();
+			if enc.decrypt_message(&mut body).is_err() {
+				replies_ok = false;
+				replies.push("\"bad-body\"".to_string());
+				break;
+			}
+			let ty = if len >= 2 { ((body[0] as u32) << 8) | body[1] as u32 } else { 0xffff_ffff };
+			let head = hex(&body[..core::cmp::min(len, 4)]);
+			replies.push(format!("\"{}:{}:{}\"", ty, len, head));
+			rest = &rest[18 + len + 16..];
+		}
+	}
 	// after a caught panic the PeerManager's locks are poisoned
 	let connected = panic::catch_unwind(AssertUnwindSafe(|| node.pm.list_peers().len())).unwrap_or(0);
 	format!(
-		"{{\"mode\":\"raw\",\"role\":{},\"seed\":{},\"pm_secret\":\"{}\",\"pm_eph\":\"{}\",\"h_static\":\"{}\",\"h_static_pub\":\"{}\",\"h_eph\":\"{}\",\"pm_pub\":\"{}\",\"pm_eph_pub\":\"{}\",\"pm_first\":\"{}\",\"pm_act\":\"{}\",\"pubs\":\"{}\",\"dh\":\"{}\",\"valid\":\"{}\",\"piece_lens\":[{}],\"dec\":[{}],\"honest_len\":{},\"frags\":[{}],\"obs\":[{}],\"panic\":{},\"peers\":{},\"sock_disconnected\":{}}}",
+		"{{\"mode\":\"raw\",\"role\":{},\"seed\":{},\"pm_secret\":\"{}\",\"pm_eph\":\"{}\",\"h_static\":\"{}\",\"h_static_pub\":\"{}\",\"h_eph\":\"{}\",\"pm_pub\":\"{}\",\"pm_eph_pub\":\"{}\",\"pm_first\":\"{}\",\"pm_act\":\"{}\",\"pubs\":\"{}\",\"dh\":\"{}\",\"valid\":\"{}\",\"piece_lens\":[{}],\"dec\":[{}],\"honest_len\":{},\"frags\":[{}],\"obs\":[{}],\"replies\":[{}],\"replies_ok\":{},\"panic\":{},\"peers\":{},\"sock_disconnected\":{}}}",
 		jstr(if role_in { "in" } else { "out" }),
 		seed,
 		hex(&pm_secret.secret_bytes()),
@@ -887,6 +682,8 @@ fn raw(role_in: bool, seed: u64, toks: &[&str]) -> String {
 		honest_len,
 		frag_hex.iter().map(|x| jstr(x)).collect::<Vec<_>>().join(","),
 		obs.join(","),
+		replies.join(","),
+		replies_ok,
 		panicked,
 		connected,
 		sock.st.lock().unwrap().disconnected
